@@ -358,8 +358,8 @@ def fam_stateful(agg, h, method):
     window   : given fresh functions of the same kind, window's values equal aggregate's values joined back to the rows, and it
                fails with the same exception class when aggregate fails."""
     from serif import Table, Vector
-    keysets = [["a", "b", "a", "b", "a"], ["a", "a", "b"], ["b", "a", "b", "a"], ["a", "b", "c"]]
-    valsets = [[5, 3, None, 1, 4], [3, None, 2], [2, None, 1, None], [1, 2, 3]]
+    keysets = [["a", "b", "a", "b", "a"], ["a", "a", "b"], ["b", "a", "b", "a"], ["a", "b", "c"], ["a", "a", "b", "b", "b"], ["a", "a", "a"]]
+    valsets = [[5, 3, None, 1, 4], [3, None, 2], [2, None, 1, None], [1, 2, 3], [2, 1, 3, 5, 4], [1, 2, 3]]
     excs = {"TypeError": TypeError, "ValueError": ValueError, "KeyError": KeyError, "own-class": _Boom}
 
     def fresh(kind, exc, calls):
@@ -394,6 +394,28 @@ def fam_stateful(agg, h, method):
                 calls.append(("g", list(xs))); state["n"] += 1
                 return state["n"] * 100
             return {"first": ("v", f), "second": ("v", g)}
+        if kind == "container-sensitive":       # the result depends on WHAT kind of sequence the function is handed
+            def f(xs):
+                calls.append(("f", list(xs)))
+                clean = [x for x in xs if x is not None]
+                return f"{type(xs).__name__}:{xs[:2]!r}:{xs == sorted(clean) if len(clean) == len(xs) else None}"
+            return {"r": ("v", f)}
+        if kind == "returns-pair":              # a (low, high) pair is ONE value - also for a group of exactly two rows
+            def f(xs):
+                calls.append(("f", list(xs)))
+                clean = [x for x in xs if x is not None]
+                return (min(clean), max(clean)) if clean else (None, None)
+            return {"r": ("v", f)}
+        if kind == "returns-the-values":        # a list as long as the group is ONE value, too
+            def f(xs):
+                calls.append(("f", list(xs)))
+                return [0 if x is None else x for x in xs]
+            return {"r": ("v", f)}
+        if kind == "returns-triple":
+            def f(xs):
+                calls.append(("f", list(xs)))
+                return (len(list(xs)), 1, 2)
+            return {"r": ("v", f)}
         if kind == "two-that-fail-on-different-groups":
             def f(xs):
                 calls.append(("f", list(xs)))
@@ -416,7 +438,7 @@ def fam_stateful(agg, h, method):
         vs_first_of_first_group = [gvals[0][0]]
         vs_first_of_second_group = [gvals[1][0]] if len(gvals) > 1 else [object()]
         plans = [("raises-on-None", n_) for n_ in excs] + [("raises-on-2nd-call", n_) for n_ in excs] + [("python-max", "TypeError"), ("shared-counter", None),
-                 ("two-that-fail-on-different-groups", None)]
+                 ("two-that-fail-on-different-groups", None), ("container-sensitive", None), ("returns-pair", None), ("returns-the-values", None), ("returns-triple", None)]
         for kind, en in plans:
             exc = excs.get(en, TypeError)
             case = {"family": "custom functions that raise or count their calls", "keys": ks, "values": vs, "functions": kind, "exception": en, "method": method}
